@@ -562,6 +562,9 @@ func (h recoveryLog) Handle(context.Context, slog.Record) error {
 
 type tKey struct{}
 
+// hangWaitMs: how long a timed request may take before it counts as never answered
+var hangWaitMs = func() *atomic.Int64 { v := new(atomic.Int64); v.Store(5000); return v }()
+
 func (s *tState) goH() { s.hGoOnce.Do(func() { close(s.hGo) }) }
 
 // tBracket is the first handler of the timed route: it runs inside the timeout middleware's
@@ -774,7 +777,8 @@ func runT(c tCase) tObs {
 	}()
 	select {
 	case <-served:
-	case <-time.After(20 * time.Second):
+	case <-time.After(time.Duration(hangWaitMs.Load()) * time.Millisecond):
+		hangWaitMs.Store(300) // one witness with the long wait is enough: the later ones must not cost 5 s each
 		// the request is never answered (in the model every generated program returns): an observation, not a timing
 		// artefact — reported like a process that is gone: no response, escaped = 9
 		s.parent.fire(context.Canceled)
